@@ -277,16 +277,24 @@ def _rows(ct, tier, seed):
                 want = spec_n_numeric(fnum, b['coefficients'], ws)
             else:
                 t = np.array(b['table'], dtype=float)
+                t = t[np.argsort(t[:, 0], kind='stable')]          # "the linear interpolation of the tabulated data": over increasing wavelength
                 want = np.interp(ws, t[:, 0], t[:, 1])
             ok = np.allclose(got, want, rtol=1e-9, atol=1e-12, equal_nan=True)
             note('C18.rows.index_equals_definition_on_the_stated_range', ok,
                  'max dev %.3e at %s' % (np.nanmax(np.abs(got - want)) if got.shape == want.shape else float('nan'), r['filename']), inputs)
+            # a wavelength buffer refilled in place between two calls (band loops do that) is evaluated at its current contents
+            buf = ws.copy()
+            m.n(buf)
+            buf[:] = buf[::-1].copy()
+            note('C18.rows.array_argument_is_read_at_call_time', bool(np.allclose(np.array(m.n(buf), dtype=float), got[::-1], rtol=1e-10, atol=0, equal_nan=True)),
+                 r['filename'], inputs)
             s = m.n(float(ws[nw // 2]))
             note('C18.rows.scalar_and_array_arguments_agree', np.allclose(float(np.ravel(s)[0]), got[nw // 2], rtol=1e-13, atol=0, equal_nan=True),
                  r['filename'], inputs)
             kt = [bb for bb in blocks if bb['type'] in ('tabulated k', 'tabulated nk')]
             if kt:
                 t = np.array(kt[0]['table'], dtype=float)
+                t = t[np.argsort(t[:, 0], kind='stable')]
                 col = 1 if kt[0]['type'] == 'tabulated k' else 2
                 wk = np.linspace(t[0, 0], t[-1, 0], nw)
                 note('C18.rows.k_is_linear_interpolation_of_the_table', np.allclose(m.k(wk), np.interp(wk, t[:, 0], t[:, col]), rtol=1e-12, atol=0),
